@@ -795,18 +795,31 @@ func (w *Worktree) Move(from, to string) (plumbing.Hash, error) {
 		return plumbing.ZeroHash, err
 	}
 
-	hash, err := w.deleteFromIndex(idx, from)
+	moved, err := idx.Remove(from)
 	if err != nil {
 		return plumbing.ZeroHash, err
 	}
+	hash := moved.Hash
 
 	if err := w.filesystem.Rename(from, to); err != nil {
 		return hash, err
 	}
 
-	if err := w.addOrUpdateFileToIndex(idx, to, hash); err != nil {
+	// The entry moves as it is, like git mv: id, mode and stat data still
+	// describe what was staged. Refreshing the stat data from the file while
+	// keeping the id would make a file that was modified (or chmod'ed) since
+	// it was staged look clean, and the next commit -a would record the
+	// stale content.
+	dst, err := idx.Entry(to)
+	if errors.Is(err, index.ErrEntryNotFound) {
+		dst, err = idx.Add(to)
+	}
+	if err != nil {
 		return hash, err
 	}
+	name := dst.Name
+	*dst = *moved
+	dst.Name = name
 
 	return hash, w.r.Storer.SetIndex(idx)
 }
